@@ -667,7 +667,10 @@ fn run_split(out: &mut Vec<(String, String)>, lines: &mut Vec<String>) -> (u64, 
     let overs = ["cd", "cd2", "cn"];
     for (pi, pre) in pres.iter().enumerate() {
         for (oi, over) in overs.iter().enumerate() {
-            for churn in 0..3 {
+            // the overtaking commit is placed at the reader's first, second or third stop after its registration:
+            // on the unchanged tree begin_read has one stop there (M.get_data_root, before id and root are read
+            // together); code that reads them in two steps stops again in between, and that gap is then exercised too
+            for (churn, stop_at) in [(0, 1), (1, 1), (2, 1), (0, 2), (1, 2), (1, 3)] {
                 let cache = [0usize, 512, 2048, 64 << 20][(pi + oi + churn) % 4];
                 let file = MemFile::new();
                 let db = Arc::new(open_db(&file, None, cache));
@@ -709,6 +712,21 @@ fn run_split(out: &mut Vec<(String, String)>, lines: &mut Vec<String>) -> (u64, 
                     out.push(("c02-pause-sequence".into(), format!("begin_read emitted {e1:?}, {e2:?} instead of T.register_read, M.get_data_root")));
                     // let it finish
                     let _ = ctl.step(1);
+                    continue;
+                }
+                let mut finished_early = false;
+                for _ in 1..stop_at {
+                    match ctl.step(1) {
+                        Event::At(_) => {}
+                        _ => {
+                            finished_early = true;
+                            break;
+                        }
+                    }
+                }
+                if finished_early {
+                    // no further stop inside begin_read: this placement does not exist for this code
+                    drop(slot.lock().unwrap().take());
                     continue;
                 }
                 // the commit that overtakes the registered reader (main thread: pause points pass through)
